@@ -87,7 +87,10 @@ func (v *SliceSchema) validate(ctx *p.SchemaCtx) {
 
 	if isZeroVal || refVal.Len() == 0 {
 		if v.defaultVal != nil {
-			refVal.Set(reflect.ValueOf(v.defaultVal))
+			def := reflect.ValueOf(v.defaultVal)
+			cp := reflect.MakeSlice(refVal.Type(), def.Len(), def.Len())
+			reflect.Copy(cp, def)
+			refVal.Set(cp)
 		} else if v.required == nil {
 			return
 		} else {
